@@ -21,6 +21,7 @@
 import Keto.Model.Concurrency
 import Keto.Proofs.ConcLemmas
 import Keto.Proofs.FactsTieConc
+import Keto.Proofs.FactsTieEngine
 
 namespace Keto
 open Conc
@@ -126,6 +127,11 @@ theorem C14_prewarm_tie :
 theorem C14_lazyInit_tie : Facts.lazyInit = FactsTie.expectedLazyInit := Keto.FactsTie.lazyInit_tie
 /-- The shared mutable state requests touch is accessed under its locks. -/
 theorem C14_lockUse_tie : Facts.lockUse = FactsTie.expectedLockUse := Keto.FactsTie.lockUse_tie
+/-- The engines are stateless: their only field is the dependency provider. (The model's requests write
+    request-local state or publish request-independent registry members only; an engine field that a request
+    writes - a cache, a coalescing group, a configuration resolved once - would be shared state the model
+    does not have.) -/
+theorem C14_engine_stateless_tie : Facts.structFields = FactsTie.expectedStructFields := Keto.FactsTie.structFields_tie
 
 /-! ### the premise matters: a step that writes a shared cell with a request-dependent value -/
 
